@@ -43,7 +43,6 @@ func c08Schema() *z.StructSchema {
 	}).TestFunc(func(p any, ctx z.Ctx) bool { return p.(*c08Dest).A != 99 })
 }
 
-
 func C08_Run(job string) {
 	a, b, _, _ := split3(job)
 	x, y := v.Int("x"), v.Int("y")
